@@ -331,6 +331,7 @@ class Session:
         self.samples = []
         self.notes = []
         self.timeout_ms = tier_timeout(tier)
+        self.default_replay = None      # native replay route used by obligations of this unit that name none of their own
 
     # -- bookkeeping ---------------------------------------------------------------------------
     def under_contract(self, *fns):
@@ -352,6 +353,7 @@ class Session:
         """Obligation: (definitional axioms of ctx /\\ hyps) => goal, for all values of the free symbols.
         holes: optional {z3 key constant: [candidate key terms]} — existential key holes (DESIGN 1.3)."""
         t0 = time.time()
+        replay = replay or self.default_replay
         try:
             rec = self._prove(oid, ctx, goal, hyps, function, replay, what, holes, timeout_ms or self.timeout_ms, nl_budget_ms)
             if rec.get("status") == "undecided" and "timeout" in str(rec.get("reason")):
@@ -497,6 +499,7 @@ class Session:
         `shape` facts state the PROGRAM SHAPE a contract relies on (one scan, one call of a callee, one host callback ...): when one fails, the contract can no longer be stated in
         its present form - that is `undecided`, not a violation, unless the native replay route shows a behavioural difference.  By default ids that speak about counts of program
         constructs are shape facts."""
+        replay = replay or self.default_replay
         if shape is None:
             shape = bool(_SHAPE_ID.search(oid.rsplit("/", 1)[-1]))
         rec = self._record(oid, "discharged" if ok else "failed", function=function, what=what,
